@@ -467,6 +467,56 @@ def ablate_userfns(case):
     return dict(case, recipe=rec)
 
 
+def _window_reduce_steps(case):
+    return [s for s in case["recipe"]["steps"] if s["op"] == "window" and "reduce" in s["args"] and not s["args"].get("ablate")]
+
+
+def nested_window_steps(case):
+    """window+reduce steps that have another window+reduce step among their ancestors."""
+    steps = case["recipe"]["steps"]
+    by_out = {s["out"]: s for s in steps}
+    wr = {s["out"] for s in _window_reduce_steps(case)}
+    anc = {}
+
+    def ancestors(v):
+        if v not in anc:
+            a = set()
+            for i in by_out[v]["in"] if v in by_out else []:
+                a.add(i)
+                a |= ancestors(i)
+            anc[v] = a
+        return anc[v]
+
+    return [v for v in sorted(wr) if ancestors(v) & wr]
+
+
+def pre_nested_window(case, result):
+    return bool(nested_window_steps(case))
+
+
+def abl_nested_window(case):
+    """The same case with every window+reduce step that feeds another one replaced by a plain slice of the
+    same shape and dtype (only the outermost of each chain keeps the sliding-window machinery)."""
+    steps = case["recipe"]["steps"]
+    by_out = {s["out"]: s for s in steps}
+    inner = set()
+    for v in nested_window_steps(case):
+        stack = list(by_out[v]["in"])
+        seen = set()
+        while stack:
+            u = stack.pop()
+            if u in seen or u not in by_out:
+                continue
+            seen.add(u)
+            s = by_out[u]
+            if s["op"] == "window" and "reduce" in s["args"]:
+                inner.add(u)
+            stack.extend(s["in"])
+    rec = dict(case["recipe"])
+    rec["steps"] = [dict(s, args=dict(s["args"], ablate=True)) if s["out"] in inner else s for s in steps]
+    return dict(case, recipe=rec)
+
+
 UNIFY_KEYS = ("array.unify-chunks-policy", "array.unify-chunks-limit")
 
 
